@@ -313,6 +313,17 @@ func c05RoundTrip(c *Ctx) {
 			n, err := dst.ReadFrom(&chunkedReader{data: append([]byte(nil), wire...), r: r, eofWithData: true})
 			return n, err, nil
 		}},
+		{"ReadFrom/source-zoo", false, func(dst *roaring.Bitmap) (int64, error, []any) {
+			src := sourceZoo(r, wire)
+			defer src.done()
+			c.Step("source: %s", src.name)
+			c.Count("source_" + src.name)
+			n, err := dst.ReadFrom(src.rd)
+			if err != nil {
+				err = fmt.Errorf("%w (source: %s)", err, src.name)
+			}
+			return n, err, nil
+		}},
 		{"FromBuffer", true, func(dst *roaring.Bitmap) (int64, error, []any) {
 			buf := append(append([]byte(nil), wire...), tail...)
 			n, err := dst.FromBuffer(buf)
